@@ -63,9 +63,18 @@ def rule1_cb_order(ctx, fl):
             okm = same_value(f, u.args[0], 'a2')
             ctx.ob('C05.1', '%s: unlocks arg3' % name, okm, 'the mutex unlocked is callback arg3', loc=u.loc,
                    detail='' if okm else 'unlock argument is %s' % describe(f, u.args[0]))
+            # released exactly when a mutex was handed over: on the non-NULL edge of a test of arg3, and on no path
+            # with a mutex is the release skipped
+            nts = lib.null_tests(f, 'a2')
+            okg = any(f.edge_dominates(br.block.id, nn, u) for br, nn, nl in nts)
+            oka = bool(nts) and all(not [r for r in f.reachable_from(lib.first_inst(f, nn), blocked=unls, include_start=True) if r.op == 'ret']
+                                    for br, nn, nl in nts)
+            ctx.ob('C05.1', '%s: mutex released exactly when one was handed over' % name, okg and oka,
+                   'if (m) unlock(m): a waiter that keeps the mutex while it sleeps blocks every signaler; a NULL mutex (lock / barrier '
+                   'waiters) must not be unlocked', loc=u.loc)
         ctx.ob('C05.1', '%s: has unlock' % name, bool(unls), 'callback releases the mutex handed to it',
                loc=f.loc)
-    ctx.floor('C05.1', 8)
+    ctx.floor('C05.1', 10)
 
 
 def rule2_wait(ctx, fl):
@@ -204,6 +213,8 @@ def run(ctx):
 
 SYNC = 'src/myth_sync_func.h'
 MUTANTS = [
+    {'name': 'callback releases the mutex only when none was handed over (sweep M0202)', 'expect': 'C05.1',
+     'edits': [(SYNC, "  myth_sleep_queue_enq_th(q, cur);\n  if (m) {", "  myth_sleep_queue_enq_th(q, cur);\n  if (!(m)) {")]},
     {'name': 'cond_init forgets the sleep queue', 'expect': 'C05.4',
      'edits': [(SYNC, '  myth_sleep_queue_init(cond->sleep_q);\n  if (attr) {\n    cond->attr = *attr;', '  if (attr) {\n    cond->attr = *attr;')]},
     {'name': 'swap enqueue and unlock in myth_block_on_queue_cb', 'expect': 'C05.1',
